@@ -189,6 +189,19 @@ async fn handle_raw_message(args: ListenArgs, buf: &[u8]) -> Option<Message> {
     }
 }
 
+/// The reply sent when the real one cannot be serialised (a record or a
+/// section too large for the wire format): the same header and question with
+/// empty sections and SERVFAIL, so the client is not left without an answer.
+fn unserialisable_fallback(message: &Message) -> Message {
+    let mut fallback = message.clone();
+    fallback.answers.clear();
+    fallback.authority.clear();
+    fallback.additional.clear();
+    fallback.header.is_authoritative = false;
+    fallback.header.rcode = Rcode::ServerFailure;
+    fallback
+}
+
 async fn listen_tcp_task(args: ListenArgs, socket: TcpListener) {
     loop {
         match socket.accept().await {
@@ -237,6 +250,15 @@ async fn listen_tcp_task(args: ListenArgs, socket: TcpListener) {
                                     ?error,
                                     "could not serialise message"
                                 );
+                                if let Ok(mut serialised) =
+                                    unserialisable_fallback(&message).to_octets()
+                                {
+                                    if let Err(error) =
+                                        send_tcp_bytes(&mut stream, &mut serialised).await
+                                    {
+                                        tracing::debug!(?peer, ?error, "TCP send error");
+                                    }
+                                }
                             }
                         };
                     };
@@ -295,6 +317,13 @@ async fn listen_udp_task(args: ListenArgs, socket: UdpSocket) {
                             ?error,
                             "could not serialise message"
                         );
+                        if let Ok(mut serialised) = unserialisable_fallback(&message).to_octets() {
+                            if let Err(error) =
+                                send_udp_bytes_to(&socket, peer, &mut serialised).await
+                            {
+                                tracing::debug!(?peer, ?error, "UDP send error");
+                            }
+                        }
                     }
                 };
                 response_timer.observe_duration();
